@@ -4,6 +4,17 @@ All 16 keys of the gas-constant table x estimates (unit vectors, class pairs)
 and single group correlations x the temperature grid x S_elements in {absent,
 None, False, True}; elemental clause: every molecule of the enumerated
 vocabulary decomposed immediately before the estimate.
+
+Third wave (DESIGN.md 10.9), three further families:
+ * the S_elements switch in every presentation of a truth value (Python bool,
+   0/1, 0.0/1.0, numpy bool, numpy integer, 0-d bool array): the falsy ones on
+   every object, the truthy ones in the elemental clause of every molecule;
+ * the temperature handed over as something other than one Python float
+   (numpy scalar, Python int, 0-d / 1-element array, the grid as an array in
+   four layouts, an integer array) on every object, three unit strings;
+ * decomposition histories: all sequences of 3 (thorough: also 4) letters over
+   a 5-letter alphabet of (molecule, spelling/object) run back to back on ONE
+   library object, the elemental clause evaluated after every step.
 """
 import math
 
@@ -11,6 +22,7 @@ from ..runner import Result
 from ..domains import estimates as E
 from ..domains import schemes as SD
 from ..domains import libs
+from ..domains import w3_c07 as W3
 
 LEVEL = 'exploration'
 # my own conversion factors to J/mol (exact definitions; per-molecule units
@@ -27,18 +39,51 @@ J_PER = {
 BOUND = {t: '16 unit strings x (all unit vectors with count 1 and 0.5, all '
             'class pairs, every single group correlation) x grid temperatures '
             'x 4 S_elements settings; elemental clause on the scheme '
-            'vocabulary of 3 libraries (M(3) + curated)' for t in ('quick', 'thorough')}
+            'vocabulary of 3 libraries (M(3) + curated). '
+            'Further, on every one of those objects: 5 more falsy presentations '
+            'of S_elements (0, 0.0, numpy False, numpy int 0, 0-d False array) '
+            'at every grid temperature; up to 9 presentations of the temperature '
+            'other than a Python float (numpy float64, 0-d array, 1-element '
+            'array, Python int - each on the first grid temperature; the grid '
+            'as float array ascending, descending, as a column, with a repeated '
+            'point; an integer-dtype array) x 3 unit strings (J/mol, kcal/mol, '
+            'eV) x H, S, Cp, G. Elemental clause: 5 more truthy presentations '
+            'of S_elements (1, 1.0, numpy True, numpy int 1, 0-d True array) x '
+            '4 routes (S/R, G/RT, S, G) at both temperatures of every '
+            'vocabulary molecule and spelling. Histories: per library (3) an '
+            'alphabet of 5 letters (3 molecules as SMILES, a second spelling of '
+            'one, one as molecule object), all 5^%s sequences executed back to '
+            'back on one library object per first letter, elemental clause '
+            '(S_elements True and numpy True, 4 routes, first temperature of '
+            'the range) after every step' % ('3' if t == 'quick' else '3 and all 5^4')
+         for t in ('quick', 'thorough')}
 RULE = ('for each (object, temperature, unit string) the four dimensional '
         'getters are compared with the non-dimensional ones times the tabulated '
         'R (1e-12), G with H - T*S, every pair of units with my own conversion '
         'factor (1e-6), and S relative to the elements with the sum over all '
         'atoms (counted by the harness, hydrogens included) of the tabulated '
-        'elemental entropies.  Non-trivial = a unit other than J/mol, or an '
-        'elemental-reference evaluation')
+        'elemental entropies.  The same comparisons are made element-wise '
+        '(and on the shape) when the temperature is a numpy scalar, an int or '
+        'an array: whatever the non-dimensional getter returns for that very '
+        'argument, times R (and T); when the non-dimensional getter refuses '
+        'the argument the dimensional one must not return.  Every truthy '
+        'presentation of S_elements must lower S/R by the elemental sum, every '
+        'falsy one must leave it alone.  In a history every step is judged '
+        'against the elemental sum of the molecule of THAT step.  '
+        'Non-trivial = a unit other than J/mol, an elemental-reference '
+        'evaluation, a temperature not given as a Python float, an S_elements '
+        'value other than None/False/True, or a history step')
 ASSUMPTIONS = ['pmutt.constants.R and S_elements are the "tabulated" values',
                'conversion factors between unit strings are written from the '
                'SI definitions; tolerance 1e-6 because the table is rounded '
-               'to 8 digits']
+               'to 8 digits',
+               'for non-float temperatures the reference is the non-dimensional '
+               'getter of the same object on the same argument (two routes, '
+               'one object); whether an array is accepted at all is left to '
+               'that getter (array vs scalar agreement: C05)',
+               'the sequences of one history shard share a library object, so '
+               'each sequence is also preceded by the earlier ones; the '
+               'witness carries that complete history']
 MANIFEST = dict(
     technique='exhaustive enumeration of unit strings x estimates x '
               'temperatures vs own conversion table and atom count',
@@ -48,9 +93,16 @@ MANIFEST = dict(
          '(and T), G = H - T*S, results in two units differ by the conversion '
          'factor; for every vocabulary molecule decomposed immediately before, '
          'S/R relative to the elements is lowered by exactly the sum of the '
-         'tabulated elemental entropies over all atoms including hydrogens.',
+         'tabulated elemental entropies over all atoms including hydrogens. '
+         'The same with the temperature given as numpy scalar, int or array '
+         '(9 presentations x 3 units), with S_elements given as any of 6 '
+         'truthy / 7 falsy presentations of a truth value, and after every '
+         'step of every 3-letter (thorough: 4-letter) decomposition history '
+         'over 5 letters on one library object (3 libraries).',
     note='The elemental clause is checked for the molecule decomposed '
-         'immediately before the estimate (other histories: C15).',
+         'immediately before the estimate, also when that molecule or others '
+         'were decomposed on the same library object earlier (histories of '
+         'other operations: C15).',
     ref='5/C07')
 
 
@@ -134,6 +186,163 @@ def check_object(R, what, obj, temps, wit, selements_ok=False):
                     R.violation('S_elements-%s-changes-S' % flag,
                                 '%s: get_SoR(T, S_elements=%r) gave %r, without the '
                                 'argument %r' % (what, flag, v[1], base[1]), wit)
+            # ... and so is every other falsy presentation of the switch
+            for label, flag in W3.falsy_flags()[2:]:
+                R.evals += 1
+                R.nontrivial += 1
+                v = E.ev(obj.get_SoR, T, S_elements=flag)
+                bad = v[0] != 'ok' or v[1] != base[1]
+                R.outcomes['falsy-flag:%s' % ('changes-S' if bad else 'same')] += 1
+                if bad:
+                    R.violation('S_elements-%s-changes-S' % label,
+                                '%s: get_SoR(T, S_elements=%s) gave %r, without the '
+                                'argument %r' % (what, label, v[1], base[1]), wit)
+
+
+def same(a, b, tol, scale=None):
+    """Array-aware equality: same shape, every element within tol relative
+    to max(|a|, |b|) (or to `scale`).  NaN is never equal."""
+    import numpy as np
+    try:
+        if np.shape(a) != np.shape(b):
+            return False
+        x = np.asarray(a, dtype=float)
+        y = np.asarray(b, dtype=float)
+        if scale is None:
+            m = np.maximum(np.abs(x), np.abs(y))
+        else:
+            m = np.abs(np.asarray(scale, dtype=float))
+        return bool(np.all(np.abs(x - y) <= tol * np.maximum(m, 1e-300)))
+    except Exception:      # noqa
+        return False
+
+
+def check_presentations(R, what, obj, temps, wit):
+    """The temperature given as numpy scalar / int / array: the dimensional
+    getter must return what the non-dimensional one returns for the very same
+    argument, times R (times T), element by element and in the same shape."""
+    import numpy as np
+    import pmutt.constants as c
+    for label, T in W3.temperature_presentations(temps):
+        nd = {}
+        for p in ('get_HoRT', 'get_SoR', 'get_CpoR'):
+            nd[p] = E.ev(getattr(obj, p), T)
+        for u in W3.UNITS_T:
+            R.evals += 1
+            R.nontrivial += 1
+            uk = u + '/K'
+            problems = []
+            h = E.ev(obj.get_H, T, u)
+            s = E.ev(obj.get_S, T, uk)
+            cp = E.ev(obj.get_Cp, T, uk)
+            g = E.ev(obj.get_G, T, u)
+            for name, dim, ndv, factor in (
+                    ('H', h, nd['get_HoRT'], T * c.R(uk)),
+                    ('S', s, nd['get_SoR'], c.R(uk)),
+                    ('Cp', cp, nd['get_CpoR'], c.R(uk))):
+                if ndv[0] != 'ok':
+                    if dim[0] == 'ok':
+                        problems.append('%s(%s) returned %r although the non-'
+                                        'dimensional value raises %s' % (name, u, dim[1], ndv[1]))
+                    continue
+                if dim[0] != 'ok':
+                    problems.append('%s(T, %r) raised %s although the non-dimensional '
+                                    'getter returns %r' % (name, u, dim[1], ndv[1]))
+                    continue
+                want = E.ev(lambda: ndv[1] * factor)
+                if want[0] != 'ok':
+                    # the harness cannot form nd * R * T: nothing to compare
+                    R.outcomes['T-presentation:product-undefined'] += 1
+                    continue
+                if not same(dim[1], want[1], 1e-12):
+                    problems.append('%s(T, %r) = %r, expected %r' % (
+                        name, u, dim[1], want[1]))
+            if h[0] == 'ok' and s[0] == 'ok':
+                hs = E.ev(lambda: h[1] - T * s[1])
+                if g[0] != 'ok':
+                    problems.append('G(T, %r) raised %s' % (u, g[1]))
+                elif hs[0] == 'ok' and not same(
+                        g[1], hs[1], 1e-9,
+                        scale=np.maximum(np.abs(h[1]), np.abs(T * s[1]))):
+                    problems.append('G(T, %r) = %r, H - T*S = %r' % (u, g[1], hs[1]))
+            R.outcomes['T-presentation:%s' % ('ok' if not problems else 'bad')] += 1
+            for pr in problems[:2]:
+                R.violation('dimensional-T-presentation:%s' % pr.split('(')[0].split(' ')[0],
+                            '%s at T=%r (%s): %s' % (what, T, label, pr), wit)
+
+
+def elemental_problems(e, T, want_sub, flag, label, s0, g0, natoms):
+    """The elemental clause on estimate `e` at T with the switch given as
+    `flag`, through the four routes (S/R, G/RT, S, G); s0, g0 are the values
+    without the switch.  Same comparisons as for the singleton True."""
+    import pmutt.constants as c
+    s1 = E.ev(e.get_SoR, T, S_elements=flag)
+    g1 = E.ev(e.get_GoRT, T, S_elements=flag)
+    sd = E.ev(e.get_S, T, 'J/mol/K', S_elements=flag)
+    gd = E.ev(e.get_G, T, 'kJ/mol', S_elements=flag)
+    probs = []
+    if s1[0] != 'ok':
+        probs.append('get_SoR(T, S_elements=%s) raised %s' % (label, s1[1]))
+    elif abs((s0[1] - s1[1]) - want_sub) > 1e-9 * max(1, want_sub):
+        probs.append('with S_elements=%s S/R is lowered by %r, elemental entropies '
+                     'of all %d atoms sum to %r' % (label, s0[1] - s1[1], natoms, want_sub))
+    if g0[0] == 'ok' and s1[0] == 'ok':
+        if g1[0] != 'ok' or abs((g1[1] - g0[1]) - want_sub) > 1e-9 * max(1, want_sub):
+            probs.append('G/RT relative to the elements (S_elements=%s): %r vs %r + %r' % (
+                label, g1[1], g0[1], want_sub))
+        if sd[0] != 'ok' or not rel(sd[1], s1[1] * c.R('J/mol/K')):
+            probs.append('S(T, J/mol/K, S_elements=%s) = %r' % (label, sd[1]))
+        if gd[0] != 'ok' or g1[0] != 'ok' or \
+                abs(gd[1] - g1[1] * T * c.R('kJ/mol/K')) > 1e-9 * max(1, abs(gd[1])):
+            probs.append('G(T, kJ/mol, S_elements=%s) = %r' % (label, gd[1]))
+    return probs
+
+
+def run_history(R, name, lib, history):
+    """Execute `history` ([[kind, smiles], ...]) on the library object `lib`
+    without resetting anything in between; after every step estimate the
+    molecule just decomposed and judge the elemental clause against the
+    elemental sum of THAT molecule (atoms counted here, hydrogens included)."""
+    from rdkit import Chem
+    import pmutt.constants as c
+    for n, (kind, smi) in enumerate(history):
+        wit = dict(kind='hist', lib=name, history=[list(x) for x in history[:n + 1]])
+        arg = Chem.MolFromSmiles(smi) if kind == 'm' else smi
+        r = E.ev(lib.GetDescriptors, arg)
+        R.evals += 1
+        R.nontrivial += 1
+        if r[0] != 'ok':
+            R.outcomes['history:not-decomposable'] += 1
+            continue
+        e = E.ev(lib.Estimate, r[1], 'thermochem')
+        if e[0] != 'ok':
+            R.outcomes['history:no-data'] += 1
+            continue
+        e = e[1]
+        mh = Chem.AddHs(Chem.MolFromSmiles(smi))
+        want_sub = math.fsum(c.S_elements[a.GetAtomicNum()] for a in mh.GetAtoms())
+        rng = e.get_range()
+        T = 298.15 if rng is None else float(rng[0])
+        s0 = E.ev(e.get_SoR, T)
+        if s0[0] != 'ok':
+            R.outcomes['history:S-not-available'] += 1
+            continue
+        g0 = E.ev(e.get_GoRT, T)
+        probs = []
+        for label, flag in W3.truthy_flags()[:1] + W3.truthy_flags()[3:4]:
+            probs += elemental_problems(e, T, want_sub, flag, label, s0, g0,
+                                        mh.GetNumAtoms())
+        revisit = any(Chem.CanonSmiles(x[1]) == Chem.CanonSmiles(smi)
+                      for x in history[:n])
+        R.outcomes['history:%s:%s' % ('revisit' if revisit else 'first-visit',
+                                      'ok' if not probs else 'bad')] += 1
+        for pr in probs[:1]:
+            R.violation('history:elements:%s' % ('sum' if 'lowered' in pr else 'other'),
+                        '[%s] step %d of %r (%s %s) at T=%r: %s' % (
+                            name, n + 1, [x[1] if x[0] == 's' else 'Mol(%s)' % x[1]
+                                          for x in history[:n + 1]],
+                            'string' if kind == 's' else 'molecule object', smi, T, pr),
+                        wit)
 
 
 def check_elements(R, name, lib, smi, as_object=False):
@@ -184,6 +393,17 @@ def check_elements(R, name, lib, smi, as_object=False):
         for pr in probs[:1]:
             R.violation('elements:%s' % ('sum' if 'lowered' in pr else 'other'),
                         '[%s] %s at T=%r: %s' % (name, smi, T, pr), wit)
+        # every other truthy presentation of the switch asks for the same
+        for label, flag in W3.truthy_flags()[1:]:
+            R.evals += 1
+            R.nontrivial += 1
+            fp = elemental_problems(e, T, want_sub, flag, label, s0, g0,
+                                    mh.GetNumAtoms())
+            R.outcomes['elements-flag:%s' % ('ok' if not fp else 'bad')] += 1
+            for pr in fp[:1]:
+                R.violation('elements-flag:%s:%s' % (
+                    label, 'sum' if 'lowered' in pr else 'other'),
+                    '[%s] %s at T=%r: %s' % (name, smi, T, pr), wit)
     # ... and stays what it was when the library later decomposes something else
     T0 = temps[0]
     first = E.ev(e.get_SoR, T0, S_elements=True)
@@ -207,6 +427,7 @@ def check_elements(R, name, lib, smi, as_object=False):
 
 def run_estimates(R, name, i, n, only=None):
     lib = E.fresh(name)
+    shown = []
     for num, (tag, mapping) in enumerate(E.mappings(lib, 'quick')):
         if num % n != i and only is None:
             continue
@@ -222,11 +443,21 @@ def run_estimates(R, name, i, n, only=None):
         temps = E.grid_inside(E.common_range(lib, mapping), mapping, lib)[:3]
         check_object(R, '%s estimate %r' % (name, m2), r[1], temps,
                      dict(kind='est', lib=name, mapping=m2))
+        check_presentations(R, '%s estimate %r' % (name, m2), r[1], temps,
+                            dict(kind='est', lib=name, mapping=m2))
         if tag == 'unit' and mapping[0][1] == 1:
             k = lib[mapping[0][0]]['thermochem']
             check_object(R, '%s[%s]' % (name, mapping[0][0]), k, temps,
                          dict(kind='est', lib=name, mapping=m2))
+            check_presentations(R, '%s[%s]' % (name, mapping[0][0]), k, temps,
+                                dict(kind='est', lib=name, mapping=m2))
+        shown = temps
     R.sample(dict(library=name, units=units_h()), limit=1)
+    R.sample(dict(library=name, units_for_temperature_presentations=W3.UNITS_T,
+                  temperature_presentations=[
+                      '%s: %r' % (l, t) for l, t in W3.temperature_presentations(shown)],
+                  falsy_S_elements=[l for l, _ in W3.falsy_flags()],
+                  truthy_S_elements=[l for l, _ in W3.truthy_flags()]), limit=2)
 
 
 ELEM_LIBS = ['BensonGA', 'GRWSurface2018', 'XieGA2022']
@@ -240,6 +471,10 @@ def shards(tier, seed):
     for name in ELEM_LIBS:
         for i in range(6):
             out.append(('elem', name, i, 6))
+    # decomposition histories: one library object per (library, first letter)
+    for name in ELEM_LIBS:
+        for first in range(len(W3.HIST_LETTERS[name])):
+            out.append(('hist', name, first))
     return out
 
 
@@ -247,6 +482,18 @@ def run_shard(shard, tier):
     R = Result()
     if shard[0] == 'est':
         run_estimates(R, shard[1], shard[2], shard[3])
+    elif shard[0] == 'hist':
+        # every sequence of the bound, back to back on ONE library object: the
+        # history handed to run_history is everything that object has seen
+        lib = E.fresh(shard[1])
+        whole = []
+        for length in W3.HIST_LEN[tier]:
+            for h in W3.histories(shard[1], shard[2], length):
+                whole.extend(h)
+        run_history(R, shard[1], lib, whole)
+        R.sample(dict(library=shard[1], letters=W3.HIST_LETTERS[shard[1]],
+                      first_letter=shard[2], lengths=list(W3.HIST_LEN[tier]),
+                      steps=len(whole)), limit=1)
     else:
         lib = E.fresh(shard[1])
         mols = SD.molecules_for(shard[1], 'quick')
@@ -268,6 +515,8 @@ def replay(w):
     R = Result()
     if w['kind'] == 'elem':
         check_elements(R, w['lib'], E.fresh(w['lib']), w['smiles'], w.get('as_object', False))
+    elif w['kind'] == 'hist':
+        run_history(R, w['lib'], E.fresh(w['lib']), [list(x) for x in w['history']])
     else:
         run_estimates(R, w['lib'], 0, 1, only=w['mapping'])
     return dict(violates=bool(R.violations),
